@@ -10,7 +10,8 @@ T4 = ["Retry"]
 PROOF_MODULES = ["GrpcProofs.Properties.C23"]
 THEOREMS = ["GrpcProofs.C23." + t for t in (
     "finish_runs_done_at_most_once", "every_attempt_finished_once", "done_exactly_once_at_end", "finish_finishes",
-    "cancel_finishes", "abandoned_attempt_finished_before_retry", "pick_loop_done", "pick_loop_fresh_ids")]
+    "cancel_finishes", "abandoned_attempt_finished_before_retry", "failed_creation_finished_once", "pick_loop_done",
+    "pick_loop_fresh_ids")]
 DESIGN_REF = "DESIGN.md section 8, C23"
 TECHNIQUE = ("Lean 4 invariant proofs over the retry-loop model of C18 (csAttempt.finish is reached exactly once per attempt on every "
              "path: retryLocked, clientStream.finish, cancellation) + list induction for pickerWrapper.pick + T2 differential run with an "
@@ -21,13 +22,16 @@ LEVEL_TEXT = ("Machine-checked Lean proofs, for every server script, retry polic
               "every attempt exactly once; and that the pick loop calls Done exactly once, immediately, on every non-ready result it "
               "discards and never on the result it returns or on errors.")
 LEVEL_NOTE = ("Domain (DESIGN section 7): pick results whose SubConn was created by this channel. Picker errors are limited to "
-              "ErrNoSubConnAvailable and a status error on the very first pick; non-status picker errors and NewStream failures after a "
-              "successful pick are outside the correspondence (the theorems cover them only through the abstract 'attempt failed' path). "
+              "ErrNoSubConnAvailable and a status error on the very first pick; non-status picker errors are outside the correspondence. "
+              "'Fails to create a stream': transport.NewStream failing after a successful pick is modelled (St.failStep/failLoop: the attempt "
+              "never becomes cs.attempt and is finished at the top of retryLocked's next turn) and driven through failing per-RPC credentials, "
+              "on first and on retried attempts. "
               "Cancellation is exercised for streaming RPCs (the goroutine of newClientStream calls cs.finish).")
-GAP = "foreign SubConn types; non-status picker errors; transport.NewStream failures after a pick; concurrent picker updates racing with a pick"
+GAP = "foreign SubConn types; non-status picker errors; NewStream failures other than a status error without transparent retry; concurrent picker updates racing with a pick"
 ASSUMPTIONS = ["the scripted server writes answers only at quiescent points", "a new picker is published at the next quiescent point after nosc/notready"]
 RULE = ("s_pickdone: the C18 generator's policies/server scripts/app op sequences plus `cancel`, combined with a picker script of "
-        "ok / oknd / notready / nosc entries (and hang or a status-error drop as the outcome of the first pick); every pick and every Done "
+        "ok / oknd / notready / nosc entries (and hang or a status-error drop as the outcome of the first pick) and a script of stream-creation "
+        "outcomes (per-RPC credentials failing after a successful pick, on the first or on a retried attempt, with a retryable or fatal code); every pick and every Done "
         "call of the real channel is logged with ids. Non-trivial = at least two picks or a Done with a non-zero code.")
 
 
@@ -38,11 +42,14 @@ def _c18():
     return m
 
 
-def picks(rng):
+def picks(rng, ns_fail=False):
+    """ns_fail: some stream creations fail, so which pick serves the first attempt is not known here: hang/drop are left out"""
     first = []
     for _ in range(rng.choice([0, 0, 0, 1, 1, 2])):
         first.append(rng.choice(["notready", "nosc"]))
     r = rng.random()
+    if ns_fail:
+        r = 0.5
     if r < 0.06:
         first.append("hang")
     elif r < 0.12:
@@ -54,7 +61,7 @@ def picks(rng):
 
 
 def app(rng, kind, c18):
-    ops = c18.app(rng, kind)
+    ops = [o.replace("sendrecv ", "send ") for o in c18.app(rng, kind)]
     ops[0] = "new d"
     if kind != "u" and rng.random() < 0.4:
         k = rng.randrange(1, len(ops) + 1)
@@ -63,11 +70,11 @@ def app(rng, kind, c18):
 
 
 def directed():
-    P = "cfg ma=%d codes=14 ib=1000000000 mb=10000000000 mult=2 chan=0 thr=- dis=0 kind=%s script=%s picks=%s"
+    P = "cfg ma=%d codes=14 ib=1000000000 mb=10000000000 mult=2 chan=0 thr=- dis=0 kind=%s script=%s ns=%s picks=%s"
     out = []
 
-    def c(tag, ma, kind, script, pk, ops):
-        out.append(Case("s_pickdone", [P % (ma, kind, script, pk)] + ops, "directed-" + tag))
+    def c(tag, ma, kind, script, pk, ops, ns="-"):
+        out.append(Case("s_pickdone", [P % (ma, kind, script, ns, pk)] + ops, "directed-" + tag))
     c("retry-notready-nosc", 4, "u", "TE:14;R;HE:0", "ok,notready,nosc,oknd", ["new d", "send 10", "recv", "recv"])
     c("cancel-live", 4, "b", "N", "ok", ["new d", "send 1", "cancel", "recv"])
     c("cancel-after-failure", 4, "b", "T0:14;T0:14", "-", ["new d", "send 1", "cancel", "recv"])
@@ -79,6 +86,13 @@ def directed():
     c("headers-then-fail", 3, "b", "HE:14", "notready,ok", ["new d", "send 1", "close", "recv", "recv"])
     c("goaway", 3, "b", "G;TE:14;HE:0", "ok,nosc,ok,notready,oknd", ["new d", "send 3", "close", "recv", "recv"])
     c("send-error-finishes", 3, "c", "N", "ok", ["new d", "send 1", "close", "send 2", "recv"])
+    # the pick succeeds, creating the stream fails (per-RPC credentials): retried attempt / first attempt, fatal / retryable
+    c("ns-retry-fatal", 4, "u", "TE:14;HE:0", "ok,ok", ["new d", "send 1", "recv", "recv"], "-,16")
+    c("ns-retry-retryable", 4, "u", "TE:14;HE:0", "ok,notready,ok,oknd,ok", ["new d", "send 1", "recv", "recv"], "-,14,14")
+    c("ns-first-fatal", 4, "b", "HE:0", "notready,ok", ["new d", "send 1"], "16")
+    c("ns-first-retryable", 4, "b", "HE:0", "ok,ok,ok", ["new d", "send 1", "close", "recv", "recv"], "14,14,-")
+    c("ns-send-path", 4, "b", "T0:14;HE:0", "ok,ok,oknd,ok", ["new d", "send 1", "send 2", "close", "recv"], "-,14,14,-")
+    c("ns-exhaust", 3, "u", "TE:14;HE:0", "-", ["new d", "send 1", "recv"], "-,14,14,14")
     return out
 
 
@@ -89,7 +103,7 @@ def gen(rng, tier):
     n = {"quick": 500, "thorough": 15000, "search": 5000}[tier]
     for i in range(n):
         line, kind = c18.cfg(rng)
-        yield Case("s_pickdone", [line + " picks=" + ",".join(picks(rng))] + app(rng, kind, c18), "rand-%d" % i)
+        yield Case("s_pickdone", [line + " picks=" + ",".join(picks(rng, "ns=-" not in line))] + app(rng, kind, c18), "rand-%d" % i)
 
 
 def nontrivial(case, impl_lines):
